@@ -325,6 +325,8 @@ def justify(facts, roles, arity, src, table):
         return None
     if rule == "strslice":
         return j_str_slice(facts, b, bi, t)
+    if rule == "panic":
+        return j_dead_by_length(facts, arity, b, bi)
     if rule == "floatsum":
         targs = t["callee"].get("targs", [])
         if targs and all(x in ("f64", "f32") or not re.search(r"\b[iu](8|16|32|64|128|size)\b", x) for x in targs) and any(x in ("f64", "f32") for x in targs):
@@ -1021,6 +1023,43 @@ def _j_index_const(facts, arity, b, bi, vecop, c):
         if what == "operand list":
             return "J3 arity: index %d < minimum operand count %d of every table entry bound to this function" % (c, lo)
         return "J3 view length: index %d < %d = minimum length of an %s" % (c, lo, what)
+    lo, hi, used = refined_length(b, bi, view)
+    if c < lo:
+        return "J3 %s: length ∈ [%s,%s] after %s ⇒ index %d in bounds" % ("arity interval" if what == "operand list" else "view length (%s)" % what, lo, "∞" if hi == float("inf") else hi, "; ".join(used), c)
+    return None
+
+
+def j_dead_by_length(facts, arity, b, bi):
+    """An explicit panic (`unreachable!()` in the rest arm of a slice-pattern match, a `_ =>` after the lengths that can
+    occur) is dead code when the length tests that dominate it, on a value whose length interval is known (operand
+    list by arity, item of chunks(n)/windows(n)…), leave no length at all."""
+    seen = []
+    for sb in sorted(b.reachable()):
+        for s in b.blocks[sb]["stmts"]:
+            if s["k"] == "Assign" and s["rv"]["k"] == "UnaryOp" and s["rv"]["op"] == "PtrMetadata" and b.dominates(sb, bi):
+                seen.append(s["rv"]["a"])
+        t = b.blocks[sb]["term"]
+        if t["k"] == "Call" and (callee_path(t) or "") in LEN_CALLS and t["args"] and b.dominates(sb, bi):
+            seen.append(t["args"][0])
+    done = set()
+    for op in seen:
+        k = repr(strip_refs(b.trace(op)))
+        if k in done:
+            continue
+        done.add(k)
+        view = view_length(facts, arity, b, op)
+        if view is None:
+            continue
+        lo, hi, used = refined_length(b, bi, view)
+        if lo > hi and used:
+            return "J3 dead code: the length of the %s is in [%s,%s]; the tests that dominate this site (%s) leave no possible length" % (view[2], view[0], view[1], "; ".join(used))
+    return None
+
+
+def refined_length(b, bi, view):
+    """(lo, hi, tests used): the length interval of the view at block bi of b, after the length tests on that very value
+    that dominate the site (in b and, for a closure, around its creation in the enclosing bodies)."""
+    lo, hi, what, is_len = view
     # refine along dominating comparison edges on the length of that very value
     chain = [b]
     cur = b
@@ -1088,9 +1127,9 @@ def _j_index_const(facts, arity, b, bi, vecop, c):
                 used.append("len %s %d (bb%d of %s)" % (eff, k, sb, body.key.rsplit("::", 1)[-1]))
     while lo in excluded:
         lo += 1
-    if c < lo:
-        return "J3 %s: length ∈ [%s,%s] after %s ⇒ index %d in bounds" % ("arity interval" if what == "operand list" else "view length (%s)" % what, lo, "∞" if hi == float("inf") else hi, "; ".join(used), c)
-    return None
+    while hi in excluded and hi >= lo:
+        hi -= 1
+    return lo, hi, used
 
 
 def is_len_of_vec(arity, body, e):
